@@ -333,10 +333,11 @@ PROPS["C19"] = dict(
     "announce changing ranges inside their own band, accept, and then succeed / fail / disconnect, followed by a phase in which every peer announces everything and always succeeds. "
     "The event log is checked per block: one holder at a time; the accepting peer had announced the block; no lower block was waiting during the whole accept call; a request returns Ok "
     "only after a success and Canceled only if its requester gave up; a failed hand-out is offered again; at the end every remaining request returns (a virtual-time deadlock is a lost "
-    "request). 75 % of the scenarios run on a deterministic current-thread runtime, 25 % on 4 worker threads.",
+    "request). Before that phase the deterministic scenarios wait for quiescence (event log unchanged for 100 scheduler rounds) and check that the lowest requested block is not one an "
+    "idle peer (inside accept_block) has announced: such a request is starving (lost wake-up), not waiting. 75 % of the scenarios run on a deterministic current-thread runtime, 25 % on 4 worker threads.",
     assumptions=["concurrent requests for the same number are documented as unsupported and never issued", "held on the generated interleavings only"],
     stages=[dict(name="fetch-queue", flavour="release", **NET)],
-    floors={"quick": {"accepts_checked": 20000, "failed_requests_accepted_again": 5000, "requests_cancelled": 2000, "requests_completed": 15000, "scenarios_multi_thread": 300},
+    floors={"quick": {"accepts_checked": 20000, "failed_requests_accepted_again": 5000, "requests_cancelled": 2000, "requests_completed": 15000, "scenarios_multi_thread": 300, "quiescence_probes": 5000},
             "thorough": {"accepts_checked": 500000}},
 )
 
